@@ -58,6 +58,7 @@ func c10Wire(c c10Cmd, dir string, rng *rand.Rand) (wire string, payload string)
 		"dslashglobdir": dir + "//*/a.log", "longmissing": dir + "/" + strings.Repeat("n", 300) + ".log"}[c.File]
 	opts := map[string]string{"none": "", "empty": ":", "valid": ":quiet=true:plain=true", "context": ":before=1:after=1:max=2",
 		"noeq": ":quiet", "nonint": []string{":max=x", ":before=1.5", ":after="}[rng.Intn(3)], "b64good": ":x=base64%Zm9v", "b64bad": ":x=base64%!!!",
+		"b64bare": []string{":x=base64", ":quiet=base64", ":max=base64", ":before=base64%"}[rng.Intn(4)],
 		"negbefore": ":before=-1:max=1", "hugebefore": []string{":before=99999999999:max=1", ":before=4611686018427387904:after=1"}[rng.Intn(2)]}[c.Opts]
 	regex := map[string][]string{"default": {"regex:default", "line"}, "invert": {"regex:invert", "nomatch"}, "noop": {"regex:noop", ""},
 		"wrongprefix": {"foo", "bar"}, "uncompilable": {"regex:default", []string{"(", "[a", "a{2,1}", "\\"}[rng.Intn(4)]},
@@ -67,6 +68,9 @@ func c10Wire(c c10Cmd, dir string, rng *rand.Rand) (wire string, payload string)
 	query := map[string]string{"valid": "select count($line) group by $hostname", "empty": "", "blank": " ", "lonebackquote": "select ` from x",
 		"unknownkeyword": "frobnicate the logs", "truncated": "select count($line) from", "badlogformat": "select count($line) logformat nosuchformat",
 		"unknownagg": "select median($x)",
+		"quotedbackquote": []string{"select count($line) where $line contains \"`\"", "select count($line) set $x = \"`\" group by $hostname",
+			"select count($line) where \"`\" eq $line"}[rng.Intn(3)],
+		"quotedkeyword": []string{"select count($line) where $line eq \"limit\"", "select count($line) set $x = \"group\"", "select count($line) outfile \"select\""}[rng.Intn(3)],
 		"interval0": "select count($line) group by $hostname interval 0", "intervalneg": "select count($line) group by $hostname interval -5",
 		"intervalhuge": "select count($line) group by $hostname interval 9223372036854775807", "limit0": "select count($line) group by $hostname limit 0",
 		"limitneg": "select count($line) group by $hostname limit -1", "rorderlimit1": "select count($line) group by $hostname rorder by count($line) limit 1",
